@@ -157,7 +157,7 @@ def _one(seed):
 
 def run(tier):
   ck = Check('C07', tier)
-  ck.prove('props/C07.v', gen_targets=[])
+  ck.prove('props/C07.v', gen_targets=['scenario'])
   n = common.sz(tier, 150, 2000)
   res = common.pmap(_one, [ck.seed * 100003 + 7 * 1009 + i for i in range(n)], chunksize=4)
   kinds, known = {}, {}
